@@ -138,9 +138,18 @@ def generate_high_level_commands_for_sched_op(sched_op, schedule):
     # Create activation function if needed
     for op in ps.ops:
         if op.type.is_relu_op() or op.type in (Op.Tanh, Op.Sigmoid):
-            ps.primary_op.activation = create_activation_function(
+            activation = create_activation_function(
                 op.type, min=op.attrs.get("min", None), max=op.attrs.get("max", None)
             )
+            fused = ps.primary_op.activation
+            if fused is not None and op.type.is_relu_op() and fused.op_type.is_relu_op():
+                # The primary op already clamps its output (fused activation function), the packed ReLU narrows
+                # that range, it does not replace it
+                if fused.min is not None:
+                    activation.min = fused.min if activation.min is None else max(activation.min, fused.min)
+                if fused.max is not None:
+                    activation.max = fused.max if activation.max is None else min(activation.max, fused.max)
+            ps.primary_op.activation = activation
 
     # Generate commands for the Op that produces this Op's IFM, if applicable
     if cascade_info is None or cascade_info.start == sched_op.index:
